@@ -22,7 +22,9 @@ real FlowConfigs) against a boring reference interpreter over the generator's ow
              in {0,1} (only 1 when no condition reads $r); no decision -> Listen -> user point, where the
              history branches over {intent the flow waits for, start intent of f1, start intent of f2,
              an unknown intent, intent a left flow was waiting for}.  BFS over all such histories with
-             <= max_user user turns and <= max_dev turns that are not the expected continuation.
+             <= max_user user turns, <= max_dev turns that are not the expected continuation and
+             <= max_zero actions returning 0 (bounds per program group: see plan(); a history in which a
+             left flow becomes involved is followed to the end of that turn only).
   oracle     reference(history) = structured-program semantics (sequence, if/else, while, assignment,
              subflow call = inlined block, one global context dict).  Demanded (strict):
                * history follows a flow (from its start intent) -> decided step == that flow's next
@@ -33,11 +35,19 @@ real FlowConfigs) against a boring reference interpreter over the generator's ow
              NOT demanded (docs are silent): anything that involves a flow that was left earlier (resume or
              not).  Such histories are still evaluated for the second clause only.
   2nd clause every history is evaluated on the long-lived flow_configs used for all earlier calls of the
-             program's BFS and on a pristine deep copy of an independent second parse: identical decisions.
+             program's BFS and on a pristine copy of an independent second parse: identical decisions; the
+             first histories are evaluated once more on the used configs after all other calls.
+  classes    signature = kind : path of the statement the flow stood at -> path of the expected statement :
+             constructs the reference executed in between : how the decision differs.  One input class has a
+             signature of its own (INSTANT_SIG): histories in which some flow ran from its start intent to
+             its end within that one event (only assignments / conditions after `user ...`) - the runtime
+             keeps such a flow instance alive with a negative head, every later decision may be affected.
+  replay     program text + script of user intents / action results; histories are rebuilt with plain calls.
+             For a used-vs-fresh difference the (script, round) ids of all earlier calls on the used configs
+             are stored and repeated first.
 """
 from __future__ import annotations
 
-import copy
 import functools
 import os
 import pickle
@@ -550,7 +560,7 @@ def show_step(s):
     return f"${s[2]} = execute {s[1]}"
 
 
-def kind_of(got, expect, P):
+def kind_of(got, expect):
     if got == expect:
         return "same"
     if got is None:
@@ -666,7 +676,7 @@ def check_node(W, ahist, hist, r, k=0):
         viol.append(("shape", f"shape:{where}:{feats}", f"decision is not [ContextUpdate,] step: {bad}"))
         return None, viol, step
     if step != r["expect"]:
-        k = kind_of(step, r["expect"], W.P)
+        k = kind_of(step, r["expect"])
         if r["leave"] and r["leave"] == "unknown-intent":
             sig = f"unknown-intent:{k}:{_short(r['from'])}"
         else:
@@ -712,7 +722,7 @@ def _check_after_instant(W, ahist, hist, r, ru, rf):
 
 
 def _short(path):
-    """keep the two innermost constructs of a statement path"""
+    """keep the flow name / innermost constructs of a statement path (at most three components)"""
     if path in ("-", "end"):
         return path
     pre = ""
@@ -762,11 +772,11 @@ def explore(task):
         counts["violating_histories"] += 1
         v = viols.get(sig)
         script = [list(e) for e in ahist if e[0] in ("user", "done")]
-        if v is None or (len(script), hist_len) < v["size"][1:]:
+        if v is None or (len(script), hist_len) < v["size"][1:3]:
             n = v["n"] if v else 0
             viols[sig] = {
                 "signature": sig, "n": n + 1,
-                "size": (prog_size(P), len(script), hist_len),
+                "size": (prog_size(P), len(script), hist_len, len(W.src)),
                 "what": f"program `{_oneline(W.src)}` script {_show_script(script)}: {text}",
                 "replay": {"source": W.src, "program": P, "order": list(order), "script": script, "k": k,
                            "kind": kind, "detail": text},
@@ -775,7 +785,9 @@ def explore(task):
         else:
             v["n"] += 1
 
-    # node = (ahist, hist, r, n_user, dev_used, depth, terminal)
+    # node = (abstract history, concrete history, reference result, user turns, unexpected turns used,
+    #         depth, terminal (a left flow is involved: finish this turn only), actions that returned 0,
+    #         k = decision rounds since the last user / action-result event)
     q = deque()
     r0 = ref_run(P, (), W.tab)
 
